@@ -378,3 +378,88 @@ def rule_enum_dispatch(ctx):
             res.violate(ikey, "%s is called with operands from %s, expected (var, fst, snd)" % (want, [sorted(x) for x in srcs]), c["sp"]["file"], c["sp"]["line"])
     res.require_floor(2)
     return res
+
+
+SORTS6 = {"Equal", "NotEqual", "Less", "LessOrEqual", "Greater", "GreaterOrEqual"}
+MIRROR = {"Equal": "Equal", "NotEqual": "NotEqual", "Less": "Greater", "LessOrEqual": "GreaterOrEqual", "Greater": "Less", "GreaterOrEqual": "LessOrEqual"}
+COMPLEMENT = {"Equal": "NotEqual", "NotEqual": "Equal", "Less": "GreaterOrEqual", "LessOrEqual": "Greater", "Greater": "LessOrEqual", "GreaterOrEqual": "Less"}
+
+
+def rule_sort_selfmaps(ctx):
+    """R-SORTMAP: a table from a comparison sort to a comparison sort of the same enum is what its use needs"""
+    from ..mir import Flow, op_root, place_fields
+    fx = ctx.fx
+    res = RuleResult("R-SORTMAP", "tables that send a comparison sort to a sort of the same enum (`swapped`, `negated`, ...): each is the identity, "
+                     "the mirror image (< with >, <= with >=; what exchanging the operands needs) or the complement (what exchanging the "
+                     "branches needs) - nothing else - and where the function that applies it exchanges the operands it is the mirror image, "
+                     "where it exchanges the branches the complement. A complement used for exchanged operands is wrong exactly when the "
+                     "operands are equal")
+    n = 0
+    tables = {}
+    for key in sorted(fx.fns):
+        f = fx.fns[key]
+        if f["crate"] not in fx.crates or "{promoted" in key or f["crate"] in ("axcut_examples", "scc_core_macros", "axcut_macros", "scc_macro_utils"):
+            continue
+        if "IfSort" not in f["locals"][0]["ty"] and "Sort" not in f["locals"][0]["ty"]:
+            continue
+        fn = Fn(f)
+        for bi, adt, m in enum_maps(fx, fn):
+            vs = {v["name"] for v in fx.adts[adt]["variants"]}
+            if not vs or not vs <= SORTS6 or len(vs) < 4:
+                continue
+            outs = {}
+            for vin, r in m.items():
+                if r and r[0] == "variant" and r[1] == adt:
+                    outs[vin] = r[2]
+            if set(outs) != vs:
+                continue
+            n += 1
+            kind = "identity" if all(outs[v] == v for v in vs) else "mirror" if all(outs[v] == MIRROR[v] for v in vs) else \
+                "complement" if all(outs[v] == COMPLEMENT[v] for v in vs) else "other"
+            tables[key] = kind
+            ikey = "%s:%s" % (key, adt.split("::")[-1])
+            if kind == "other":
+                wrong = sorted("%s -> %s" % (v, outs[v]) for v in vs if outs[v] not in (v, MIRROR[v], COMPLEMENT[v]) or True)
+                res.inst(ikey, fn.file, fn.line, "violation")
+                res.violate(ikey, "%s maps comparison sorts to sorts (%s): neither the identity, nor the mirror image, nor the complement - whatever it "
+                            "is used for, some comparison changes its meaning" % (key.split("::")[-1], ", ".join(wrong)[:200]), fn.file, fn.line)
+            else:
+                res.inst(ikey, fn.file, fn.line, "ok", kind)
+    # uses: what does the applying function exchange?
+    for key, f in sorted(fx.fns.items()):
+        if f["crate"] not in fx.crates or "{promoted" in key:
+            continue
+        uses = [(bi, t) for bi, t in Fn(f).calls() if (t.get("resolved_key") or t.get("callee_key")) in tables and tables[t.get("resolved_key") or t.get("callee_key")] in ("mirror", "complement")]
+        if not uses:
+            continue
+        fn = Fn(f)
+        flow = Flow(fn)
+        swapped = set()
+        for bi, t in fn.calls():
+            if t.get("callee_name") == "swap" and (t.get("callee") or "").startswith("core::mem::") and len(t["args"]) == 2:
+                pair = set()
+                for a in t["args"]:
+                    r = op_root(a)
+                    for o in (flow.origins(r, tuple(place_fields(a["pl"]))) if r is not None else ()):
+                        if o[0] == "arg" and o[2]:
+                            pair.add(o[2][0])
+                swapped |= {frozenset(pair)} if len(pair) == 2 else set()
+        for bi, t in uses:
+            kind = tables[t.get("resolved_key") or t.get("callee_key")]
+            n += 1
+            ikey = "%s@%s" % (key, t.get("callee_name"))
+            need = None
+            if any(p <= {"fst", "snd"} for p in swapped):
+                need = "mirror"
+            elif any(p <= {"thenc", "elsec"} for p in swapped):
+                need = "complement"
+            if need and need != kind:
+                res.inst(ikey, t["sp"]["file"], t["sp"]["line"], "violation")
+                res.violate(ikey, "%s exchanges the %s of a comparison and replaces the sort by its %s (%s): that needs the %s - the results differ "
+                            "when the two operands are equal" % (key.split(" as ")[0].lstrip("<").split("::")[-1] if " as " in key else key.split("::")[-1],
+                                                                  "operands" if need == "mirror" else "branches", kind, t.get("callee_name"),
+                                                                  "mirror image (< with >, <= with >=)" if need == "mirror" else "complement"), t["sp"]["file"], t["sp"]["line"])
+            else:
+                res.inst(ikey, t["sp"]["file"], t["sp"]["line"], "ok", "%s%s" % (kind, (" for exchanged " + ("operands" if need == "mirror" else "branches")) if need else ""))
+    res.inst("sort-to-sort tables: %d" % len(tables), None, None, "ok", nontrivial=False)
+    return res
